@@ -212,6 +212,16 @@ def run_check(args, root):
     known = core.load_known()
     known_keys_seen = {}
 
+    det = None
+    if args.tier == 'thorough' and not os.environ.get('VERIF_NO_SELFTEST'):
+        b, cnt = selftest_property(prop, pid, args.seed + 7919, 2, args.jobs,
+                                   root)
+        det = {'seeds': cnt, 'executions_per_seed': 3,
+               'result': 'identical' if not b else 'DIVERGED'}
+        if b:
+            print('HARNESS-ERROR determinism sample of %s diverged' % pid)
+            return 2
+        t0 = time.time()
     results = []
     stream = task_stream(prop, pid, args.seed, args.tier)
     if hasattr(prop, 'tasks'):
@@ -318,7 +328,7 @@ def run_check(args, root):
             print('  %s' % v['message'])
         rc = 1
     wall = time.time() - t0
-    ev = write_evidence(prop, pid, args, agg, wall, nviol)
+    ev = write_evidence(prop, pid, args, agg, wall, nviol, det)
     c = ev['coverage']
     print('%s tier=%s seed=%d runs=%d nontrivial=%d distinct=%d jobs=%d '
           'states=%d faults=%s wall=%.0fs rc=%d' % (
@@ -392,6 +402,61 @@ def run_replay(args, root):
     return 0
 
 
+def selftest_property(prop, pid, seed, n, jobs, root):
+    """-> (bad count, number of seeds compared)"""
+    base = []
+    if hasattr(prop, 'tasks'):
+        gen = prop.tasks(seed, 'quick')
+        for i in range(n):
+            base.append(next(gen))
+    else:
+        for i in range(n):
+            base.append(_task(prop, pid, derive_seed(
+                seed, pid, prop.ENGINE, i), 'quick', i))
+    variants = []
+    for t in base:
+        for label, hs, in (('a', None), ('b', None), ('h', 12345)):
+            tt = dict(t)
+            tt['want_trace'] = True
+            tt['label'] = label
+            if tt.get('batch'):
+                tt['batch'] = min(tt['batch'], 150)
+            if hs is not None:
+                tt['hashseed'] = hs + (t['seed'] % 1000)
+            variants.append(tt)
+    out1 = core.run_tasks([v for v in variants if v['label'] == 'a'],
+                          10 ** 9, 1, prop.RUN_TIMEOUT,
+                          os.path.join(root, 'st1-' + pid),
+                          stop_on_violation=False, max_tasks=len(base))
+    out2 = core.run_tasks([v for v in variants if v['label'] != 'a'],
+                          10 ** 9, jobs, prop.RUN_TIMEOUT,
+                          os.path.join(root, 'st2-' + pid),
+                          stop_on_violation=False, max_tasks=2 * len(base))
+    bad = 0
+    by_seed = {}
+    for t, r in out1 + out2:
+        if r.get('error'):
+            print('HARNESS-ERROR selftest %s: %s' % (pid, r['error'][-800:]))
+            bad += 1
+            continue
+        by_seed.setdefault(t['seed'], []).append(
+            (t['label'], r.get('trace_digest'), r.get('trace'),
+             [v['key'] for v in r.get('violations') or []]))
+    for s_, lst in sorted(by_seed.items()):
+        ds = set(x[1] for x in lst)
+        if len(ds) != 1 or len(lst) != 3:
+            bad += 1
+            print('NONDETERMINISM %s seed=%d: %s' % (
+                pid, s_, [(x[0], x[1]) for x in lst]))
+            traces = [x[2] for x in lst if x[2]]
+            if len(traces) >= 2:
+                for i, (a, b) in enumerate(zip(traces[0], traces[1])):
+                    if a != b:
+                        print('  first divergence at step %d' % i)
+                        break
+    return bad, len(by_seed)
+
+
 def run_selftest(args, root):
     """Determinism: every sampled seed is run twice, at two worker counts,
     and once more under a different PYTHONHASHSEED; trace digests must be
@@ -406,58 +471,9 @@ def run_selftest(args, root):
         prop = props.get(pid)
         if not getattr(prop, 'SELFTEST', True):
             continue
-        base = []
-        if hasattr(prop, 'tasks'):
-            gen = prop.tasks(args.seed, 'quick')
-            for i in range(n):
-                base.append(next(gen))
-        else:
-            for i in range(n):
-                base.append(_task(prop, pid, derive_seed(
-                    args.seed, pid, prop.ENGINE, i), 'quick', i))
-        variants = []
-        for t in base:
-            for label, hs, in (('a', None), ('b', None), ('h', 12345)):
-                tt = dict(t)
-                tt['want_trace'] = True
-                tt['label'] = label
-                if hs is not None:
-                    tt['hashseed'] = hs + (t['seed'] % 1000)
-                variants.append(tt)
-        out1 = core.run_tasks([v for v in variants if v['label'] == 'a'],
-                              10 ** 9, 1 if args.jobs > 1 else 1,
-                              prop.RUN_TIMEOUT,
-                              os.path.join(root, 'st1-' + pid),
-                              stop_on_violation=False,
-                              max_tasks=len(base))
-        out2 = core.run_tasks([v for v in variants if v['label'] != 'a'],
-                              10 ** 9, args.jobs, prop.RUN_TIMEOUT,
-                              os.path.join(root, 'st2-' + pid),
-                              stop_on_violation=False,
-                              max_tasks=2 * len(base))
-        by_seed = {}
-        for t, r in out1 + out2:
-            if r.get('error'):
-                print('HARNESS-ERROR selftest %s: %s' % (pid,
-                                                        r['error'][-800:]))
-                bad += 1
-                continue
-            by_seed.setdefault(t['seed'], []).append(
-                (t['label'], r.get('trace_digest'), r.get('trace'),
-                 [v['key'] for v in r.get('violations') or []]))
-        for seed, lst in sorted(by_seed.items()):
-            ds = set(x[1] for x in lst)
-            if len(ds) != 1 or len(lst) != 3:
-                bad += 1
-                print('NONDETERMINISM %s seed=%d: %s' % (
-                    pid, seed, [(x[0], x[1]) for x in lst]))
-                traces = [x[2] for x in lst if x[2]]
-                if len(traces) >= 2:
-                    for i, (a, b) in enumerate(zip(traces[0], traces[1])):
-                        if a != b:
-                            print('  first divergence at step %d' % i)
-                            break
+        b, cnt = selftest_property(prop, pid, args.seed, n, args.jobs, root)
+        bad += b
         print('selftest %s: %d seeds x 3 executions (workers 1 and %d, '
-              'two hash seeds): %s' % (pid, len(by_seed), args.jobs,
-                                       'FAILED' if bad else 'identical'))
+              'two hash seeds): %s' % (pid, cnt, args.jobs,
+                                       'FAILED' if b else 'identical'))
     return 2 if bad else 0
